@@ -18,7 +18,7 @@ var zooTypes = map[string][]zf{
 	"Query": {{"title", "", ""}, {"count", "", ""}, {"ratio", "", ""}, {"flag", "", ""}, {"size", "", ""},
 		{"keeper", "Keeper", "keeper"}, {"keepers", "Keeper", ""}, {"animals", "Animal", ""}, {"things", "Thing", ""},
 		{"grid", "Cell", ""}, {"echo", "", "echo"}, {"tags", "", ""}, {"nums", "", ""}, {"find", "Keeper", "find"}, {"boss", "Keeper", ""},
-		{"ghost", "", ""}, {"relay", "", "relay"}, {"pick", "Thing", "pick"}, {"join", "", "join"}, {"span", "", "span"}, {"chief", "Keeper", ""}, {"blob", "", "blob"}, {"tagged", "", "tagged"}, {"label", "Tag", ""}, {"labelRef", "TagRef", ""}, {"labelAlso", "Tag", ""}, {"odd", "Thing", ""}, {"vari", "", "vari"}, {"triple", "", ""}, {"sized", "", "sized"}},
+		{"ghost", "", ""}, {"relay", "", "relay"}, {"pick", "Thing", "pick"}, {"join", "", "join"}, {"span", "", "span"}, {"chief", "Keeper", ""}, {"blob", "", "blob"}, {"tagged", "", "tagged"}, {"label", "Tag", ""}, {"labelRef", "TagRef", ""}, {"labelAlso", "Tag", ""}, {"odd", "Thing", ""}, {"stamps", "", ""}, {"levels", "", ""}, {"vari", "", "vari"}, {"triple", "", ""}, {"sized", "", "sized"}},
 	"Keeper": {{"name", "", ""}, {"age", "", ""}, {"pets", "Animal", ""}, {"friend", "Keeper", ""}, {"cells", "Cell", ""},
 		{"motto", "", "motto"}, {"rank", "", ""}, {"dogs", "Dog", ""}, {"ghost", "", ""}, {"nick", "", "nick"}, {"code", "", "code"}},
 	"Dog":      {{"name", "", ""}, {"legs", "", ""}, {"barks", "", ""}, {"owner", "Keeper", ""}, {"code", "", ""}, {"call", "", "call"}},
@@ -150,6 +150,9 @@ type ReqOpt struct {
 	// Sized allows sized(s: Size, l: [Size]): enum literals as arguments, one of
 	// them (HUGE) only a value once the schema has been extended.
 	Sized bool
+	// Stamps allows stamps: [Time] and levels: [Size], lists of leaf values
+	// that the application keeps in one []interface{} shared by all requests.
+	Stamps bool
 	// Tune allows the schema's own executable directive @tune (list and
 	// input-object argument defaults) on fields and fragments.
 	Tune bool
@@ -433,6 +436,10 @@ func (g *reqGen) fieldsOf(typ string) []zf {
 			}
 		case "sized":
 			if !g.o.Sized {
+				continue
+			}
+		case "stamps", "levels":
+			if !g.o.Stamps {
 				continue
 			}
 		case "tagged":
